@@ -76,6 +76,20 @@ CLAIMED["C14"] = dict(
         "of time-zone spellings), the handshake announces the version variable.",
    note=TB + "Python's int()/str() on floats is supplied by the harness; strings for int variables are ASCII without underscores; utf16/utf32/ucs2 as client character set are exercised by C15, not here. Defect D13c (first middleware ran twice) found and fixed while building this check.",
    design="DESIGN.md section 4, C14")
+CLAIMED["C15"] = dict(
+   technique="Lean 4 proof (request theorems over the variable-store model: accepted request = exactly that set, rejected = unchanged; well-typedness invariant; kernel-evaluated lemmas over the whole extracted collation / character-set catalogue and over the table of codec call sites) + differential execution with reference codecs",
+   text="Theorems in lean/MimicProps/C15.lean: every .decode( site of the parsers uses the client set and every .encode( site the results or the column's set, "
+        "and the two selectors read the two session variables (over a table extracted from packets.py / results.py / connection.py each run); catalogue "
+        "lemmas (every collation maps to a set, default collations map back, ids unique and one byte, usable iff codec); SET NAMES and SET CHARACTER SET are "
+        "atomic and exact, the handshake / COM_CHANGE_USER collation selects exactly its set or ends the connection, other assignments never touch the sets; "
+        "after every history both sets have a codec (always_usable); the set that decodes command n is a function of the commands before it. Codecs are "
+        "abstract in the proof (text_arrives_unchanged is stated over any codec with the round-trip property). Tie: extraction + a real connection: every "
+        "collation id in the handshake, histories of SET NAMES / SET CHARACTER SET / variable assignments / COM_CHANGE_USER (accepted and rejected), the sets "
+        "in force after each command vs the model's trace; on every probe a reference client with codecs chosen from MySQL's definition of each of the 30 "
+        "usable sets sends repertoire strings through SQL text, query attributes, COM_INIT_DB, COM_FIELD_LIST, COM_CHANGE_USER, handshake user / database, "
+        "prepared-statement text and string parameters (inline and long data split inside a character) and decodes column names, error messages and cells.",
+   note=TB + "Python's codecs are trusted and compared with the reference codec per sampled repertoire. latin1 is exercised outside 0x80-0x9F (MySQL's latin1 is cp1252 there). ucs2/utf16/utf16le/utf32 cannot frame the NUL-terminated strings of the handshake and are exercised as results / column sets and as client sets for length-delimited fields only.",
+   design="DESIGN.md section 4, C15")
 CLAIMED["C05"] = dict(
    technique="Lean 4 proof (round-trip theorems for NULL bitmap, binary rows of all encoder classes, text framing, decimal text, durations; row-preservation of inference) + extracted encoder tables + byte-for-byte differential execution",
    text="Theorems in lean/MimicProps/C05.lean: NULL-bitmap round trip for every size/offset/pattern; binary rows of well-formed values of every supported "
